@@ -20,6 +20,14 @@ theorem filterMap_congr' {α β} {f g : α → Option β} {l : List α} (h : ∀
     rw [List.filterMap_cons, List.filterMap_cons, h a List.mem_cons_self,
       ih (fun b hb => h b (List.mem_cons_of_mem _ hb))]
 
+theorem flatMap_congr' {α β} {f g : α → List β} {l : List α} (h : ∀ a ∈ l, f a = g a) :
+    l.flatMap f = l.flatMap g := by
+  induction l with
+  | nil => rfl
+  | cons a l ih =>
+    rw [List.flatMap_cons, List.flatMap_cons, h a List.mem_cons_self,
+      ih (fun b hb => h b (List.mem_cons_of_mem _ hb))]
+
 /-- `nodeInfo` only looks at the id and the tags -/
 def nodeInfoC (c : String × String × List Tag) : Option NodeInfo := do
   let sn ← tagVal c.2.2 "SN"
@@ -244,9 +252,186 @@ theorem go_unstable {α} (ob : α → Bool) (body : α → Str) (l : List α) (h
   induction l generalizing o with
   | nil => rfl
   | cons x xs ih =>
+    have ih' := ih (fun y hy => h y (List.mem_cons_of_mem _ hy)) (ob x)
     rw [List.flatMap_cons, List.cons_append, List.cons_append, List.nil_append,
       parseUnstableSteps.go, isOrientTok_orTok, if_pos rfl, parseUnstableSteps.go,
-      isOrientTok_name _ (h x List.mem_cons_self), orTok_eq, ih (fun y hy => h y (List.mem_cons_of_mem _ hy))]
+      isOrientTok_name _ (h x List.mem_cons_self), orTok_eq, ih']
     simp
+
+theorem parse_render_unstable' (steps : List (Bool × String))
+    (h : ∀ s ∈ steps, s.2.toList ≠ [] ∧ NoOr s.2.toList) :
+    parseUnstableSteps (renderUPath steps) = steps := by
+  have hr : renderUPath steps = steps.flatMap (fun s => orTok s.1 ++ s.2.toList) := rfl
+  unfold parseUnstableSteps
+  rw [hr, pathTokens_flatMap (fun s : Bool × String => s.1) (fun s => s.2.toList) steps h,
+    go_unstable _ _ _ (fun x hx => (h x hx).2), List.map_map]
+  conv => rhs; rw [← List.map_id steps]
+  apply List.map_congr_left
+  intro s _
+  simp [String.ofList_toList]
+
+/-! ## digits -/
+
+theorem dec_isDigit {n : Nat} {c : Char} (h : c ∈ dec n) : c.isDigit = true :=
+  Nat.isDigit_of_mem_toDigits (by omega) (by omega) h
+
+theorem dec_ne_nil (n : Nat) : dec n ≠ [] := Nat.toDigits_ne_nil
+
+theorem digit_ne {c : Char} (h : c.isDigit = true) : c ≠ ':' ∧ c ≠ '-' ∧ c ≠ '>' ∧ c ≠ '<' ∧ isWs c = false := by
+  have h1 := isDigit_toNat h
+  refine ⟨?_, ?_, ?_, ?_, ?_⟩
+  · rintro rfl; revert h1; decide
+  · rintro rfl; revert h1; decide
+  · rintro rfl; revert h1; decide
+  · rintro rfl; revert h1; decide
+  · rw [Bool.eq_false_iff]; intro hw; have := isWs_toNat hw; omega
+
+theorem isDigits_dec (n : Nat) : isDigits (dec n) = true := by
+  unfold isDigits
+  rw [Bool.and_eq_true]
+  constructor
+  · cases hd : dec n with
+    | nil => exact absurd hd (dec_ne_nil n)
+    | cons a l => rfl
+  · rw [List.all_eq_true]; intro c hc; exact dec_isDigit hc
+
+theorem toInt_dec (n : Nat) : toInt (dec n) = some (n : Int) := by
+  unfold toInt
+  rw [isDigits_dec, if_pos rfl, toNat_dec']
+
+theorem decI_of_nonneg (i : Int) (h : 0 ≤ i) : decI i = dec i.toNat := by
+  unfold decI
+  rw [if_neg (by omega)]
+
+theorem rstrip_of_last (t : Str) (h : ∀ c, t.getLast? = some c → isWs c = false) : rstrip t = t := by
+  by_cases ht : t = []
+  · subst ht; rfl
+  · have hl := List.dropLast_concat_getLast ht
+    have hc := h (t.getLast ht) (List.getLast?_eq_some_getLast ht)
+    have := rstrip_append t.dropLast (t.getLast ht) hc [] (Or.inl rfl)
+    rw [List.append_nil, hl] at this
+    exact this
+
+theorem rstrip_append_dec (pre : Str) (n : Nat) : rstrip (pre ++ dec n) = pre ++ dec n := by
+  apply rstrip_of_last
+  intro c hc
+  rw [List.getLast?_append] at hc
+  cases hd : (dec n).getLast? with
+  | none => rw [List.getLast?_eq_none_iff] at hd; exact absurd hd (dec_ne_nil n)
+  | some d =>
+    rw [hd] at hc
+    have : d = c := by simpa using hc
+    subst this
+    obtain ⟨ys, hys⟩ := List.getLast?_eq_some_iff.1 hd
+    exact (digit_ne (dec_isDigit (n := n) (by rw [hys]; simp))).2.2.2.2
+
+/-! ## stable paths -/
+
+/-- the text after the orientation character of an interval -/
+def ivBody (contig : Str) (s e : Nat) : Str := contig ++ [':'] ++ dec s ++ ['-'] ++ dec e
+
+theorem splitOn_two {c : Char} (a b : Str) (ha : c ∉ a) (hb : c ∉ b) :
+    splitOnChar c (a ++ [c] ++ b) = [a, b] := by
+  have := List.splitOn_intercalate (ls := [a, b]) c (by
+    intro l hl
+    rcases List.mem_cons.1 hl with rfl | hl
+    · exact ha
+    · rcases List.mem_cons.1 hl with rfl | hl
+      · exact hb
+      · cases hl) (by simp)
+  rw [List.intercalate_cons_cons] at this
+  simpa [splitOnChar] using this
+
+theorem go_iv (contig : Str) (hc : ∀ c ∈ contig, c ≠ '>' ∧ c ≠ '<' ∧ c ≠ ':' ∧ c ≠ '-') (s e : Nat)
+    (ts : List Str) (ob : Bool) :
+    parseStableItems.go (ivBody contig s e :: ts) (some ob) =
+      (parseStableItems.go ts (some ob)).map (fun r => SItem.iv ob (String.ofList contig) (s : Int) (e : Int) :: r) := by
+  have hds : ∀ c ∈ dec s, c ≠ ':' ∧ c ≠ '-' ∧ c ≠ '>' ∧ c ≠ '<' ∧ isWs c = false :=
+    fun c h => digit_ne (dec_isDigit h)
+  have hde : ∀ c ∈ dec e, c ≠ ':' ∧ c ≠ '-' ∧ c ≠ '>' ∧ c ≠ '<' ∧ isWs c = false :=
+    fun c h => digit_ne (dec_isDigit h)
+  have h1 : isOrientTok (ivBody contig s e) = false := by
+    apply isOrientTok_name
+    intro c hm
+    simp only [ivBody, List.mem_append, List.mem_singleton] at hm
+    rcases hm with (((hm | rfl) | hm) | rfl) | hm
+    · exact ⟨(hc c hm).1, (hc c hm).2.1⟩
+    · decide
+    · exact ⟨(hds c hm).2.2.1, (hds c hm).2.2.2.1⟩
+    · decide
+    · exact ⟨(hde c hm).2.2.1, (hde c hm).2.2.2.1⟩
+  have h2 : (ivBody contig s e).contains ':' = true := by
+    rw [List.contains_iff_mem]; simp [ivBody]
+  have h2' : (ivBody contig s e).contains '-' = true := by
+    rw [List.contains_iff_mem]; simp [ivBody]
+  have h3 : rstrip (ivBody contig s e) = ivBody contig s e := rstrip_append_dec _ e
+  have h4 : splitOnChar ':' (ivBody contig s e) = [contig, dec s ++ ['-'] ++ dec e] := by
+    have : ivBody contig s e = contig ++ [':'] ++ (dec s ++ ['-'] ++ dec e) := by simp [ivBody]
+    rw [this]
+    apply splitOn_two
+    · intro hm; exact (hc _ hm).2.2.1 rfl
+    · intro hm
+      simp only [List.mem_append, List.mem_singleton] at hm
+      rcases hm with (hm | hm) | hm
+      · exact (hds _ hm).1 rfl
+      · revert hm; decide
+      · exact (hde _ hm).1 rfl
+  have h5 : rstrip (dec s ++ ['-'] ++ dec e) = dec s ++ ['-'] ++ dec e := rstrip_append_dec _ e
+  have h6 : splitOnChar '-' (dec s ++ ['-'] ++ dec e) = [dec s, dec e] := by
+    apply splitOn_two
+    · intro hm; exact (hds _ hm).2.1 rfl
+    · intro hm; exact (hde _ hm).2.1 rfl
+  rw [parseStableItems.go]
+  simp only [h1, h2, h2', h3, h4, h5, h6, toInt_dec, Bool.false_eq_true, if_false, Bool.and_self, if_true]
+
+theorem go_stable (l : List OIv)
+    (h : ∀ x ∈ l, (∀ c ∈ x.1.contig.toList, c ≠ '>' ∧ c ≠ '<' ∧ c ≠ ':' ∧ c ≠ '-') ∧ 0 ≤ x.1.s ∧ 0 ≤ x.1.e) (o : Option Bool) :
+    parseStableItems.go (l.flatMap (fun x => [orTok x.2, ivBody x.1.contig.toList x.1.s.toNat x.1.e.toNat])) o =
+      some (l.map (fun x => SItem.iv x.2 x.1.contig x.1.s x.1.e)) := by
+  induction l generalizing o with
+  | nil => rfl
+  | cons x xs ih =>
+    have hx := h x List.mem_cons_self
+    have ih' := ih (fun y hy => h y (List.mem_cons_of_mem _ hy)) (some x.2)
+    rw [List.flatMap_cons, List.cons_append, List.cons_append, List.nil_append,
+      parseStableItems.go, isOrientTok_orTok, if_pos rfl, orTok_eq, go_iv _ hx.1, ih']
+    simp [String.ofList_toList, Int.toNat_of_nonneg hx.2.1, Int.toNat_of_nonneg hx.2.2]
+
+theorem parse_render_ivs' (l : List OIv)
+    (h : ∀ x ∈ l, (∀ c ∈ x.1.contig.toList, c ≠ '>' ∧ c ≠ '<' ∧ c ≠ ':' ∧ c ≠ '-') ∧ 0 ≤ x.1.s ∧ 0 ≤ x.1.e) :
+    parseStableItems (renderSPath (.ivs l)) = some (l.map (fun x => SItem.iv x.2 x.1.contig x.1.s x.1.e)) := by
+  have hr : renderSPath (.ivs l) =
+      l.flatMap (fun x => orTok x.2 ++ ivBody x.1.contig.toList x.1.s.toNat x.1.e.toNat) := by
+    unfold renderSPath
+    apply flatMap_congr'
+    intro x hx
+    have hx := h x hx
+    simp [renderOIv, ivBody, orTok, decI_of_nonneg _ hx.2.1, decI_of_nonneg _ hx.2.2]
+  unfold parseStableItems
+  rw [hr, pathTokens_flatMap (fun x : OIv => x.2) (fun x => ivBody x.1.contig.toList x.1.s.toNat x.1.e.toNat) l]
+  · exact go_stable l h none
+  · intro x hx
+    have hx := h x hx
+    constructor
+    · simp [ivBody]
+    · intro c hm
+      simp only [ivBody, List.mem_append, List.mem_singleton] at hm
+      rcases hm with (((hm | rfl) | hm) | rfl) | hm
+      · exact ⟨(hx.1 c hm).1, (hx.1 c hm).2.1⟩
+      · decide
+      · have := digit_ne (dec_isDigit hm); exact ⟨this.2.2.1, this.2.2.2.1⟩
+      · decide
+      · have := digit_ne (dec_isDigit hm); exact ⟨this.2.2.1, this.2.2.2.1⟩
+
+theorem parse_render_bare' (c : String) (hne : c.toList ≠ [])
+    (h : ∀ d ∈ c.toList, d ≠ '>' ∧ d ≠ '<' ∧ d ≠ ':' ∧ d ≠ '-') :
+    parseStableItems (renderSPath (.bare c)) = some [SItem.bare c] := by
+  have hno : NoOr c.toList := fun d hd => ⟨(h d hd).1, (h d hd).2.1⟩
+  have hcol : c.toList.contains ':' = false := by
+    rw [Bool.eq_false_iff, ne_eq, List.contains_iff_mem]; intro hm; exact (h _ hm).2.2.1 rfl
+  unfold parseStableItems renderSPath
+  rw [pathTokens_name _ hne hno, parseStableItems.go, isOrientTok_name _ hno, hcol]
+  simp only [Bool.false_eq_true, if_false, Bool.false_and, parseStableItems.go, Option.map_some,
+    String.ofList_toList]
 
 end Gaftools.Proofs.Glue
